@@ -6,7 +6,7 @@ use crate::encspace::{enumerate, EncCase};
 use serde_json::{json, Value};
 use vph::refdec;
 
-pub const RULE: &str = "every case of the C01 sets (a),(b),(d),(e),(h), the adversarial-signal × option-lattice set (i) and the channel-heterogeneous set (j) is encoded by the real crate; for every frame (sizes from the independent decoder): bytes ≤ ceil(Σ_ch n·b_ch / 8) + 32 + 6·channels with b_ch = depth (+1 for one channel when a stereo decorrelation mode is used), and a frame whose input block is constant in every channel costs ≤ 32 + 12·channels bytes; a 'state' is one measured frame; distinct outcomes = (set, subframe-kind mix, verdict)";
+pub const RULE: &str = "every case of the C01 sets (a),(b),(d),(e),(h), the adversarial-signal × option-lattice set (i) the channel-heterogeneous set (j) the preset set (k) and the steep low-pass set (l) is encoded by the real crate; for every frame (sizes from the independent decoder): bytes ≤ ceil(Σ_ch n·b_ch / 8) + 32 + 6·channels with b_ch = depth (+1 for one channel when a stereo decorrelation mode is used), and a frame whose input block is constant in every channel costs ≤ 32 + 12·channels bytes; a 'state' is one measured frame; distinct outcomes = (set, subframe-kind mix, verdict)";
 pub const ASSUMPTIONS: &[&str] = &["the allowance 32 + 6·channels bytes covers header ≤ 16 B, CRC-16, byte padding and ≤ 8+depth header bits per verbatim subframe"];
 pub fn bounds(quick: bool) -> Value {
     super::c01::bounds(quick)
@@ -41,7 +41,7 @@ pub fn judge(bytes: &[u8], c_pcm: &[i32], ch: usize, bps: u32) -> (Vec<String>, 
 }
 
 pub fn run(ctx: &Ctx, acc: &mut Acc) {
-    enumerate(ctx, "abdehij", &mut |c: &EncCase| {
+    enumerate(ctx, "abdehijkl", &mut |c: &EncCase| {
         acc.executions += 1;
         acc.transitions += 1;
         acc.dim(&format!("set_{}", c.set), 1);
